@@ -433,6 +433,16 @@ fn gen_free_element(
                     g.push(format!("{ws}{}", pf.trim_end()));
                 }
                 b.group(g);
+                if rng.chance(1, 2) {
+                    // the README pattern: a command that consumes the temp file just written
+                    let cmd = format!("cat {}", rel_path(dir, &tpath));
+                    if o.mark_all {
+                        let id = format!("t{i}.{}", b.lines.len());
+                        b.push(format!("+TXTPP#run {cmd}; {}", marker_cmd(&id)));
+                    } else {
+                        b.push(format!("+TXTPP#run {cmd}"));
+                    }
+                }
                 b.push("after temp".into());
             }
         }
